@@ -1847,8 +1847,11 @@ impl FunctionDef {
                     local_bindings.insert(fn_name.clone(), this_value);
                 }
 
-                // Preserve inputs if present in parent
-                if let Some(inputs) = bindings.get("inputs") {
+                // Preserve inputs if present in parent, unless the function captured `inputs`
+                // when it was created: the body sees what it captured
+                if !scope.contains_key("inputs")
+                    && let Some(inputs) = bindings.get("inputs")
+                {
                     local_bindings.insert(String::from("inputs"), inputs);
                 }
 
